@@ -71,7 +71,7 @@ _LINE = re.compile(r"\A(-?\d+);(-?\d+);(-?\d+);(-?\d+);(-?\d+);([^\n]*)\n\Z")
 
 
 def small(i: int) -> int | str:
-    return i if -BIG < i < BIG else "BIG"
+    return i if -BIG < i < BIG else f"BIG:{i}"
 
 
 def parse_write(line) -> dict:
